@@ -284,11 +284,16 @@ func c19AllOfNoneOf(r *core.Report) {
 					continue
 				}
 				// exclude: "one of them is present" must reject; required: "not all of them are present" must reject
-				if (want && kind != "any") || (!want && kind != "all") {
+				if (want && kind != "any") || (!want && kind != "all" && kind != "notall") {
 					why = "the " + field + " list is handed to a helper that answers \"" + kind + " of the accounts are present\": the wrong quantifier for this list"
 					continue
 				}
-				if forcedRun(g, pred, at, ans, want, nil, rejectingReturn(info)) {
+				// the outcome that must reject: "one is present" for exclude, "not all are present" for required
+				rejectOn := want
+				if kind == "notall" {
+					rejectOn = true
+				}
+				if forcedRun(g, pred, at, ans, rejectOn, nil, rejectingReturn(info)) {
 					good = true
 				} else {
 					why = "the answer of the " + field + " helper does not reject on the right outcome"
